@@ -148,14 +148,21 @@ CHECKS = {
     ref='6/C04, 11.2', technique='Coq proof (site theorems) + differential run '
          '+ span oracle over the catalogue'),
  'C05': dict(
-    text='partial. Theorems for every token list: the pass that removes '
-         'lines emptied by markup terminates, deletes white space only, and '
-         'deletes nothing where no markup vanished (source blank lines stay). '
+    text='complete for the action-line pass on the model, partial end to end. '
+         'Theorems for every token list: the pass terminates; its effect on '
+         'the text is a sequence of deletions of a whole blank line (white '
+         'space, then its line break) at the beginning of the text or directly '
+         'behind a line break, or of trailing white space behind the last '
+         'line break, nothing else; hence the list of words is unchanged (no '
+         'two words glued, none split) and on the list of lines only blank '
+         'lines disappear (no paragraph break invented); nothing is deleted '
+         'where no markup vanished (source blank lines stay). '
          'Not a theorem: that exactly the emptied lines go and that every '
          'vanishing construct leaves an action token; decided by the layout '
          'enumerator with a TeX white-space reference and the differential run',
-    ref='6/C05, 11.2', technique='Coq proof (totality, conservation, identity '
-         'without action tokens) + layout enumerator + TeX reference oracle'),
+    ref='6/C05, 11.2', technique='Coq proof (work-list invariant: only blank '
+         'lines deleted; words and non-blank lines conserved; totality) + '
+         'layout enumerator + TeX reference oracle'),
  'C06': dict(
     text='first claim complete on the model: for every input without active '
          'characters, every language, package, class selection and fuel, '
@@ -192,7 +199,10 @@ CHECKS = {
     text='partial. Theorems: latex_error gives line and column of the '
          'position, the complete mark, pinned, first character at the '
          'position; scanner and expander record a diagnostic in the very step '
-         'that makes a mark; plain text gives neither. Not a theorem: that '
+         'that makes a mark; plain text gives neither; end to end, a document '
+         'of the class of C02 (decided by doc_in_class) runs through '
+         'parser_work without any diagnostic: only the list of unknowns of '
+         'the parser state changes. Not a theorem: that '
          'each detection site passes the position of the faulty construct and '
          'loses no text behind it; decided by the fault injector and the '
          'differential run (diagnostics and marks compared)',
@@ -215,8 +225,13 @@ CHECKS = {
          'current language) with optional blanks and final punctuation, all '
          'pinned at the first maths token; rotation is cyclic, the k-th '
          'formula gets entry k mod n, neighbours differ (collections of /repo '
-         'checked by computation). Not a theorem: the maths parser cutting '
-         'the formula out of the stream, \\text parts; decided by the '
+         'checked by computation); through the loop of the maths parser: for '
+         'every inline formula whose body holds no declared control word, '
+         'environment or paragraph break (undeclared control words '
+         'included), expand_inline_math returns exactly action token, '
+         '[blank], placeholder, [punctuation], [blank], action token and '
+         'leaves the text behind the closing delimiter untouched. Not a '
+         'theorem: bodies with declared control words, \\text parts; decided by the '
          'formula enumerator and the differential run',
     ref='6/C10, 11.2', technique='Coq proof (one part, rotation) + formula '
          'enumerator + differential run'),
@@ -224,7 +239,12 @@ CHECKS = {
     text='partial. Theorems: simple mode gives one placeholder plus final '
          'punctuation at the start of the equation; removed equation '
          'environments leave at most their punctuation; rotation lemmas as '
-         'C10. Not a theorem: the row/section scheme of the full mode; '
+         'C10; full mode through the loop of the maths parser: an equation of '
+         'one section whose body holds no declared control word and holds an '
+         'element becomes two blanks, [blank], one placeholder of the display '
+         'collection at the first element, [punctuation], [blank] between two '
+         'action tokens. Not a theorem: the row/section scheme for several '
+         'sections; '
          'decided by the equation enumerator with a structural oracle, exact '
          'placeholder sequence by the differential run',
     ref='6/C11, 11.2', technique='Coq proof (simple mode, removal) + equation '
@@ -244,7 +264,9 @@ CHECKS = {
     text='structural: the model is a function of document, options and files; '
          'the generated inventory of module-level state is an obligation '
          're-proved on every run; the implementation side is a differential '
-         'check over call histories and server request sequences',
+         'check over call histories and server request sequences; one theorem '
+         'about the parser object: a document of the class of C02 changes '
+         'nothing of the parser state but the list of unknowns',
     ref='6/C17', technique='Coq obligation on generated inventory + history differential (fresh process vs sequence, HTTP)'),
  'C19': dict(
     text='partial. Theorems: the step that meets an undeclared macro outside '
@@ -252,7 +274,10 @@ CHECKS = {
          'use), inside maths leaves the list alone, and never lists a declared '
          'name; end to end for documents of plain text, undeclared control '
          'words, comments, braces and nested pass-through macros the list is '
-         'exactly the undeclared names, once each, in order of first use. '
+         'exactly the undeclared names, once each, in order of first use; '
+         'environments at the site: \\begin{name} with an undeclared name in '
+         'plain characters appends the name once (not in maths), \\end{name} '
+         'records nothing. '
          'Not a theorem: that no other step touches the list and which '
          'uses the expander reaches; decided by the generator oracle, the '
          'differential run and the shell --list-unknown output',
